@@ -32,15 +32,15 @@ META = {
 
 def check(ctx):
     ctx.consult('plssdesc/plss_parse.py', 'plssdesc/plss_preprocess.py', 'rgxlib/twprge.py')
-    _marker_blocks(ctx)
-    _unused_flow(ctx)
+    ctx.attempt(_marker_blocks)
+    ctx.attempt(_unused_flow)
     # unused text that sec_within re-attaches must be consumed before the
     # tracts exist (otherwise it is emptied from the unused list and lost)
     from .c20 import _sec_within
-    _sec_within(ctx)
-    _chunker(ctx)
-    _preprocess(ctx)
-    _cleanup(ctx)
+    ctx.attempt(_sec_within)
+    ctx.attempt(_chunker)
+    ctx.attempt(_preprocess)
+    ctx.attempt(_cleanup)
 
 
 def _marker_blocks(ctx):
@@ -256,7 +256,7 @@ def _preprocess(ctx):
 def _cleanup(ctx):
     n = word_tables(ctx)
     cd = ctx.repo.func('plss_parse:cleanup_desc')
-    stripset(ctx, [cd])
+    ctx.attempt(stripset, [cd])
     loops = [n_ for n_ in walk_local(cd.node) if isinstance(n_, ast.For) and norm(n_.iter) == 'cull_list']
     if len(loops) != 1:
         raise AnalysisError("cleanup_desc: cull loop not found")
